@@ -8,6 +8,8 @@ package sched
 
 import (
 	"bytes"
+	"encoding/json"
+	"io"
 	"math/rand"
 	"runtime"
 	"strconv"
@@ -57,6 +59,7 @@ type Controller struct {
 	total    int
 	lastLoop string
 	Rules    []*Rule
+	Log      io.Writer // if set, every recorded event is also written here at once (one JSON line): what a crashed scenario leaves behind
 
 	// ext serialises: command delivery by the harness, ensureInactive, go activation and
 	// searchCompleted -- the sections whose relative order decides what "superseded" means.
@@ -186,6 +189,7 @@ func (c *Controller) Handle(name string, kv ...any) {
 	}
 	if !(c.Keep > 0 && noisy[name] && c.counts[name] > c.Keep) {
 		c.events = append(c.events, ev)
+		c.logLocked(ev)
 	}
 	c.cond.Broadcast()
 	// numbering: search goroutines and forwarders are numbered in the order they record their
@@ -355,10 +359,20 @@ func (c *Controller) Mark(name string, kv ...any) {
 		}
 	}
 	if keep {
-		c.events = append(c.events, Event{Seq: len(c.events) + 1, G: 0, Role: "harness", Name: name, Args: kv})
+		ev := Event{Seq: len(c.events) + 1, G: 0, Role: "harness", Name: name, Args: kv}
+		c.events = append(c.events, ev)
+		c.logLocked(ev)
 	}
 	c.cond.Broadcast()
 	c.mu.Unlock()
+}
+
+func (c *Controller) logLocked(ev Event) {
+	if c.Log != nil {
+		if data, err := json.Marshal(ev); err == nil {
+			_, _ = c.Log.Write(append(data, '\n'))
+		}
+	}
 }
 
 // Quiescent: every forwarder and search goroutine that started has exited, no completion is in
